@@ -227,6 +227,10 @@ structure Cfg where
   reconnectClock : Bool
   /-- every notification in the signalling methods is `notify_all` (false: some `notify_one`) -/
   notifyAll : Bool
+  /-- `set_peer` and every read-only method (`peer, replay_chunks_from, is_cancelled, cancel_reason,
+  timestamps, offsets`) is one critical section: `Op.nop` is then an honest model of them (one atomic step that
+  sees one state); `false` = some reader takes the lock twice / reads lock-free mirrors -/
+  readersAtomic : Bool
   deriving DecidableEq, Repr
 
 def Cfg.clockOf (c : Cfg) : Kind → Bool
